@@ -75,10 +75,14 @@ def fm_intervals(fm, y0, y1, x0, x1, c0, c1, rows=None, cols=None):
     return merge(np.concatenate(out))
 
 
-def consumed_axis(o_lo, o_hi, stride, k, dil, pad_before, extent, up, transpose=False):
-    """indices along one axis of the (stored) IFM consumed by OFM positions [o_lo, o_hi): upscaled coordinate u = o*stride - pad + j*dil"""
+def consumed_axis(o_lo, o_hi, stride, k, dil, pad_before, extent, up, transpose=False, krange=None):
+    """indices along one axis of the (stored) IFM consumed by OFM positions [o_lo, o_hi): upscaled coordinate u = o*stride - pad + j*dil.
+    krange = (first, last+1) undilated kernel element indices (sub-kernel)."""
     o = np.arange(o_lo, o_hi, dtype=np.int64)[:, None]
-    j = np.arange(0, k, dil, dtype=np.int64)[None, :]
+    j = np.arange(0, k, dil, dtype=np.int64)
+    if krange is not None:
+        j = j[krange[0]:krange[1]]
+    j = j[None, :]
     u = (o * stride - pad_before + j).ravel()
     u = u[(u >= 0) & (u < extent * up)]
     if transpose:
@@ -111,8 +115,9 @@ def lut_range(acc, F):
     return base, 2048
 
 
-def op_footprint(F, acc, ofm_box=None, ifm_depth_range=None):
-    """F: decode.Fields. ofm_box = (y0,y1,x0,x1,c0,c1) restricts to one OFM block (block jobs); default whole op."""
+def op_footprint(F, acc, ofm_box=None, ifm_depth_range=None, subkernel=None):
+    """F: decode.Fields. ofm_box = (y0,y1,x0,x1,c0,c1) restricts to one OFM block (block jobs); default whole op.
+    subkernel = (ky0, ky1, kx0, kx1): undilated kernel element ranges of one sub-kernel pass."""
     fp = OpFootprint()
     oh, ow, od = F.ofm.height, F.ofm.width, F.ofm.depth
     y0, y1, x0, x1, c0, c1 = ofm_box if ofm_box is not None else (0, oh, 0, ow, 0, od)
@@ -128,8 +133,8 @@ def op_footprint(F, acc, ofm_box=None, ifm_depth_range=None):
             fp.add("r", i2.region, fm_intervals(i2, ry[0], ry[1], rx[0], rx[1], rc[0], rc[1]), "ifm2")
     else:
         pt, pl, pb, pr = F.pad
-        rows = consumed_axis(y0, y1, F.sy, F.kh, F.dy, pt, F.ifm.height, F.up, F.upscale == 2)
-        cols = consumed_axis(x0, x1, F.sx, F.kw, F.dx, pl, F.ifm.width, F.up, F.upscale == 2)
+        rows = consumed_axis(y0, y1, F.sy, F.kh, F.dy, pt, F.ifm.height, F.up, F.upscale == 2, None if subkernel is None else subkernel[0:2])
+        cols = consumed_axis(x0, x1, F.sx, F.kw, F.dx, pl, F.ifm.width, F.up, F.upscale == 2, None if subkernel is None else subkernel[2:4])
         if F.kind == "conv" or (F.kind == "pool" and F.sub == "REDUCE_SUM"):
             ic0, ic1 = ifm_depth_range if ifm_depth_range is not None else (0, F.ifm.depth)
         else:
@@ -177,8 +182,9 @@ def conflict(a, b):
 
 
 def block_jobs(F, acc, first=None, last=None):
-    """OFM blocks in hardware order Z -> X -> Y, each with its IFM-depth sub-jobs for convolutions.
-    Returns list of (ofm_box, ifm_depth_range or None, writes_ofm: bool).  first/last: only the first / last n jobs."""
+    """Block jobs in hardware order: OFM blocks Z -> X -> Y; within a block, IFM-depth blocks (convolutions, reduce-sum) and, inside each, the sub-kernel
+    passes (kernel decomposed into at most 8x8 dilated elements; the accumulators persist, each pass loads its own IFM block).
+    Returns (list of (ofm_box, ifm_depth_range or None, subkernel or None, writes_ofm), total).  first/last: only the first / last n jobs."""
     bh, bw, bd = F.blk
     oh, ow, od = F.ofm.height, F.ofm.width, F.ofm.depth
     nz, nx, ny = -(-od // bd), -(-ow // bw), -(-oh // bh)
@@ -188,19 +194,27 @@ def block_jobs(F, acc, first=None, last=None):
             ibd = shram.rup(min(F.ifm.depth, 16), 4)
         else:
             ibd = shram.rup(min(F.ifm.depth, 16 if F.part_kernel else 32), a["ifm_ublock"][2])
-        nsub = -(-F.ifm.depth // ibd)
+        ndep = -(-F.ifm.depth // ibd)
     else:
-        ibd, nsub = None, 1
+        ibd, ndep = None, 1
+    subs = [None]
+    if F.kind != "elementwise":
+        ukh, ukw = (F.kh - 1) // F.dy + 1, (F.kw - 1) // F.dx + 1  # undilated kernel
+        dech, decw = max(1, 8 // F.dy), max(1, 8 // F.dx)
+        if ukh > dech or ukw > decw:
+            subs = [(ky, min(ky + dech, ukh), kx, min(kx + decw, ukw)) for ky in range(0, ukh, dech) for kx in range(0, ukw, decw)]
+    nsub = ndep * len(subs)
     total = nz * nx * ny * nsub
 
     def job(idx):
         blk, sub = divmod(idx, nsub)
+        dep, sk = divmod(sub, len(subs))
         z = blk % nz
         x = (blk // nz) % nx
         y = blk // (nz * nx)
         box = (y * bh, y * bh + bh, x * bw, x * bw + bw, z * bd, z * bd + bd)
-        dr = (sub * ibd, sub * ibd + ibd) if ibd is not None else None
-        return box, dr, sub == nsub - 1
+        dr = (dep * ibd, dep * ibd + ibd) if ibd is not None else None
+        return box, dr, subs[sk], sub == nsub - 1
 
     if first is not None:
         return [job(i) for i in range(min(first, total))], total
